@@ -103,6 +103,11 @@ def root_name(t):
         if t[0] == "phi":
             names = {root_name(x) for x in t[1]}
             return names.pop() if len(names) == 1 else None
+        if t[0] == "zipelem" and len(t) == 3 and isinstance(t[1], int) \
+                and t[1] < len(t[2]):
+            # the current element of one of the zipped containers
+            t = t[2][t[1]]
+            continue
         return None
 
 
